@@ -56,7 +56,11 @@ impl<'de> serde::de::Deserializer<'de> for KeyDeserializer {
     {
         if serde_spanned::__unstable::is_spanned(name, fields) {
             if let Some(span) = self.span.clone() {
-                return visitor.visit_map(super::SpannedDeserializer::new(self.key.get(), span));
+                // hand the key on as a key, so that `Spanned<T>` works for every `T` a bare key works for
+                return visitor.visit_map(super::SpannedDeserializer::new(
+                    KeyDeserializer::new(self.key, None),
+                    span,
+                ));
             }
         }
         self.deserialize_any(visitor)
